@@ -333,7 +333,15 @@ def rule_tokens(ctx, rule):
            not unk and bool(toks) and bool(elems), m.adt, None if not unk else str([(r, symex.sym_str(t)) for r, t in unk]))
     for (r1, t1) in toks:
         for (r2, t2) in elems:
-            ok = absint.variant_of(t1) is not None and absint.variant_of(t1) != absint.variant_of(t2)
+            def told_apart(a, b, depth=0):
+                """the two values differ in the variant of an enum at the same position (the outermost value, or a field of a wrapper)"""
+                va, vb = absint.variant_of(a), absint.variant_of(b)
+                if va is not None and vb is not None and va != vb:
+                    return True
+                if depth < 4 and a and b and a[0] == b[0] == "agg" and a[1] == b[1] and a[2] == b[2] and isinstance(a[3], dict) and isinstance(b[3], dict):
+                    return any(k_ in b[3] and told_apart(a[3][k_], b[3][k_], depth + 1) for k_ in a[3])
+                return False
+            ok = told_apart(t1, t2)
             ctx.ob(rule, "token-vs-element|%s|%s" % (r1, r2), "a token can be told from an element by its variant", ok, m.adt, "%s vs %s" % (symex.sym_str(t1), symex.sym_str(t2)))
     for rid in m.consumers:
         f = m.inl[rid]
